@@ -274,15 +274,15 @@ def chunksBy {α : Type} : List Nat → List α → List (List α)
   | [], _ => []
   | k :: ks, l => l.take k :: chunksBy ks (l.drop k)
 
-/-- `lincode.setup scheme=0|1 s=<two-adicity> degree=`: the defaults `L::setup` installs (Ligero: 0;
-Brakedown: 1 — only the degree report), the degree report, and the verdict of `LinearCodePCS::setup`
+/-- `lincode.setup scheme=0|1|2 s=<two-adicity> degree=`: the defaults `L::setup` installs (univariate
+Ligero: 0; multilinear Ligero: 1; Brakedown: 2 — only the degree report), the degree report, and the verdict of `LinearCodePCS::setup`
 followed by `trim` -/
 def handleSetup (r : Req) : R String := do
   let scheme ← asNat (← need r "scheme")
   let s ← asNat (← need r "s")
   let degree ← asNat (← need r "degree")
-  let pp := ligeroSetup
-  let realMax := if scheme = 0 then ligeroMaxDegree s pp else brakedownMaxDegree
+  let pp := if scheme = 1 then ligeroSetupML else ligeroSetup
+  let realMax := if scheme = 2 then brakedownMaxDegree else ligeroMaxDegree s pp
   match pcsSetup realMax degree with
   | .error e => pure (errReply e)
   | .ok () =>
